@@ -8,13 +8,14 @@ LEVEL = "proof"
 PROPS = "Sched/Props_C16.v"
 COQ_FILES = ["Sched/Compute.v", "Sched/ComputeProofs.v", "Sched/Cache.v", "Sched/CacheProofs.v",
              "Sched/RaceModel.v", "Sched/Generated_WalkAccesses.v", "Sched/RaceProofs.v",
-             "Sched/ClientRace.v", "Sched/Generated_ClientAccesses.v", "Sched/ClientRaceProofs.v", "Sched/Props_C16.v"]
+             "Sched/ClientRace.v", "Sched/Generated_ClientAccesses.v", "Sched/Generated_ClientExempt.v",
+             "Sched/ClientRaceProofs.v", "Sched/Props_C16.v"]
 THEOREMS_CACHE = ["single_flight", "at_most_one_success_per_key", "waiters_get_owner_result",
                   "returns_linearizable", "no_lost_wakeup"]
 THEOREMS_COMPUTE = ["compute_patches_confluent", "compute_patches_confluent_compare", "patch_compare_total_preorder",
                     "patch_compare_not_transitive_refuted", "compute_patches_tie_schedule_dependent_refuted"]
-THEOREMS_RACE = ["walk_context_race_free", "shared_clients_lock_protected", "client_unprotected_slots_refuted",
-                 "registries_never_appended_in_place", "no_cached_slice_mutated_in_place"]
+THEOREMS_RACE = ["walk_context_race_free", "shared_clients_race_free", "no_in_place_append",
+                 "no_cached_slice_mutated_in_place"]
 
 META = {
     "technique": "Coq proofs (confluence of a nondeterministic task pool; inductive invariants of an LTS over arbitrarily "
@@ -100,8 +101,21 @@ def translate(ctx):
     m2 = re.search(r"client_accesses=(\d+) structs=(\d+) escapes=(\d+) mutations=(\d+)", out2)
     rc = rc or rc2
     out += out2
+    # accepted exceptions of the client discipline: data, from KNOWN_FINDINGS.d/C16.json
+    target3 = os.path.join(vlib.COQ, "theories", "Sched", "Generated_ClientExempt.v")
+    ex = []
+    try:
+        ex = [e for e in json.load(open(KF_FILE)) if e.get("kind") == "unprotected-slot" and e.get("property") == "C16"]
+    except FileNotFoundError:
+        pass
+    body = ("(* GENERATED by checks/C16.py from KNOWN_FINDINGS.d/C16.json (entries of kind unprotected-slot) - do not edit. *)\n"
+            "From Coq Require Import List String.\nImport ListNotations.\nOpen Scope string_scope.\n\n"
+            "Definition client_exempt : list (string * string) :=\n  [ "
+            + ";\n    ".join('("%s", "%s")' % (e["struct"], e["field"]) for e in ex) + " ].\n")
+    if not os.path.exists(target3) or open(target3).read() != body:
+        open(target3, "w").write(body)
     # the tables are compiled on every run: a restored or rewritten .v must never be paired with an older .vo
-    for t in (target, target2):
+    for t in (target, target2, target3):
         if os.path.exists(t):
             os.utime(t, None)
     return {"ok": rc == 0, "client_table": {"changed_since_last_run": before2 != after2, "sha256": after2,
@@ -179,7 +193,7 @@ def coq_race_pairs(ctx):
     v = ("From Coq Require Import List String.\nFrom Scalibr Require Import Sched.RaceModel Sched.Generated_WalkAccesses.\n"
          "Import ListNotations.\nOpen Scope string_scope.\n"
          "Definition race_pairs := Eval vm_compute in map (fun p => (a_fn (ev_acc (fst p)), a_line (ev_acc (fst p)), "
-         "a_fn (ev_acc (snd p)), a_line (ev_acc (snd p)))) (races walk_accesses walk_calls \"RunFS\").\nPrint race_pairs.\n")
+         "a_fn (ev_acc (snd p)), a_line (ev_acc (snd p)))) (races walk_accesses walk_calls walk_root).\nPrint race_pairs.\n")
     rc, out = ctx.run_cases("C16_race_pairs", v)
     pairs = re.findall(r'\("(\w+)",\s*(\d+),\s*"(\w+)",\s*(\d+)\)', out)
     return [(a, int(b), c, int(d)) for a, b, c, d in pairs], rc, out
